@@ -113,7 +113,6 @@ def run(ctx: Ctx):
                               {"case": X.WITNESS_COMPLETENESS_STALE, "implementation": {"first": first, "second": second},
                                "specification": {"second": want}},
                               {"named_table_replaced_without_cleanup": True, "kind": "stale_completeness"})
-            ctx.expect_known("KF-C20-completeness-stale-after-table-replaced", rep, "completeness_data now recomputes after the table changed")
             rep2, labs = X.replay_witness_completeness_labels()
             ctx.cov["witness_completeness_named_tables_labels"] = labs
             if rep2:
@@ -121,9 +120,11 @@ def run(ctx: Ctx):
                               {"case": X.WITNESS_COMPLETENESS_LABELS, "implementation": {"source_dataset": labs},
                                "specification": {"source_dataset": sorted(X.WITNESS_COMPLETENESS_LABELS["tables"])}},
                               {"completeness_named_tables_unlabelled": True, "kind": "completeness_labels"})
-            ctx.expect_known("KF-C20-completeness-named-tables-unlabelled", rep2, "rows are labelled with the table names")
         except Exception:
-            ctx.log("witness replay raised", traceback.format_exc()[-800:])
+            tb = traceback.format_exc()
+            ctx.log("witness replay raised", tb[-800:])
+            ctx.violation("witness replays of completeness_data could not be run", {"broken": "witness completeness", "traceback": tb},
+                          found_input=False)
 
     if ctx.replay:
         rp = json.loads(open(ctx.replay).read())
